@@ -82,7 +82,7 @@ def canon(exec_lines):
     return '\n'.join(out)
 
 
-def run_net(prop, tier, seed, profiles, rule, assumptions, models=(), level='model_checking', dlimpl=()):
+def run_net(prop, tier, seed, profiles, rule, assumptions, models=(), level='model_checking', dlimpl=(), satimpl=None):
     """profiles: list of (profile, executions_quick, executions_thorough, max_ops)"""
     ev = Evidence(prop, tier, seed, level)
     ev.cov['rule'] = rule
@@ -138,6 +138,10 @@ def run_net(prop, tier, seed, profiles, rule, assumptions, models=(), level='mod
                 break
             import dlreplay
             dlreplay.run(ev, prop, tier, real)
+        # every transition of the implementation-shaped model of the sat core, replayed on the library
+        if satimpl and not ev.violations:
+            import satreplay
+            satreplay.run(ev, prop, tier, satimpl[0] if tier == 'quick' else satimpl[1])
         ev.cov['distinct_nontrivial'] = len(distinct)
         ev.cov['executions_dropped_wide_numbers'] = dropped
     finally:
